@@ -280,6 +280,24 @@ def skMultiGetitemView : Skel :=
     load 30 21 0, load 31 21 1, Stmt.view 32 31, alloc 34, setFields 34 [30, 32],
     alloc 40, setFields 40 [14, 34]], 40⟩
 
+/-- multivariate `mean` / `smooth` with a user-supplied `points` LIST (variable 1): each component of
+the result sits on the corresponding element of the caller's list (the list itself is only read) -/
+def skMultiOnPoints : Skel :=
+  ⟨[load 20 1 0, load 21 1 1, alloc 13, alloc 14, setFields 14 [20, 13], alloc 33, alloc 34, setFields 34 [21, 33],
+    alloc 40, setFields 40 [14, 34]], 40⟩
+
+/-- multivariate `covariance` with a `points` list: new argvals holding each given array twice -/
+def skMultiCovarianceOnPoints : Skel :=
+  ⟨[load 20 1 0, load 21 1 1,
+    load 11 20 0, alloc 12, setFields 12 [11, 11], alloc 13, alloc 14, setFields 14 [12, 13],
+    load 31 21 0, alloc 32, setFields 32 [31, 31], alloc 33, alloc 34, setFields 34 [32, 33],
+    alloc 40, setFields 40 [14, 34], setCache 0 [40]], 40⟩
+
+/-- `MFPCA.fit(data, points=[None, grid])` as seeded in round 5: fills the `None` entries of the
+CALLER's list (variable 2) in place -/
+def skFitFillsPointsList : Skel :=
+  ⟨[load 10 1 0, load 11 10 0, setFields 2 [11, 11], alloc 12, setCache 0 [12]], 12⟩
+
 /-- `UFPCA.transform(data)` / `MFPCA.transform` / `FCPTPA.transform`: variable 1 is the data
 argument (only read), the scores are a new array -/
 def skTransform : Skel :=
@@ -321,6 +339,8 @@ def skelOf : String → Option Skel
   | "estimator_apply" => some skEstimatorApply
   | "mfpca_fit" => some skMFPCAFit
   | "mfpca_fit_coded" => some skMFPCAFitCoded
+  | "multi_on_points" => some skMultiOnPoints
+  | "multi_covariance_on_points" => some skMultiCovarianceOnPoints
   | "getitem_view" => some skGetitemView
   | "multi_getitem_view" => some skMultiGetitemView
   | "transform" => some skTransform
